@@ -6,6 +6,7 @@
   write <tag> <id> <addr> <hexdata> <flush 0|1> <progress 0|1>
   pkt <chan> <hexdata>             a packet received on port MEM (chan 1..3; the info channel is outside the model)
   disc                             the disconnected callback
+  refill <tag> <hexdata>           the application overwrites, in place (same length), the buffer it passed to write(<tag> ..)
   dreset <id> code|fixed|<4 bits> | dquery <tag> <rid> <hasFail> | dread <tag> <base> <address> <len> <rid> <hasFail>
   dwrite <tag> <base> <address> <hex> <rid> <hasFail> <progress> | dpkt <chan> <hex> | ddisc | ddisconnect
                                    the DeckMemoryManager client (replies carry the manager's callbacks in addition:
@@ -222,6 +223,11 @@ def dstep (d : DSt) (ws : List String) : DSt × String :=
       let r := step d.v d.st (.pkt c da)
       let (t', touts) := testerReact d.t r.outs
       ({ d with st := r.st, t := t' }, showWithTester r t' touts)
+    | _, _ => (d, "bad-op")
+  | ["refill", tag, data] =>
+    -- the application overwrites in place the buffer it passed to write(tag ..)
+    match tag.toNat?, ofHex? data with
+    | some t, some da => ({ d with st := refillSt AliasVariant.code d.st t da }, "ok")
     | _, _ => (d, "bad-op")
   | ["oneshot"] => (d, "ok")
   | ["freset"] => ({ d with fs := FSt.init, scripts := [] }, "ok")
